@@ -14,6 +14,7 @@ Rules
       principal vector 0, radii sqrt(value) * sigmaScale, square roots only of values that cannot be negative (singular values)
 Not decided: PSD preservation numerically, ellipse reconstruction to rounding, composition of transforms numerically."""
 import math
+import re
 import sympy as sp
 from .. import sym, mat, alg
 from ..tree import const_value, sx, walk, pp, strip_casts, short_fn
@@ -89,7 +90,9 @@ class _Remap5:
 
 
 def reader(fx, hook=mat.hook):
-    return sym.Reader(fx, call_hook=hook, member_hook=mat.member_hook)
+    rd = sym.Reader(fx, call_hook=hook, member_hook=mat.member_hook)
+    rd.unroll = 8          # loops with a small constant trip count (per-component guards) are unrolled
+    return rd
 
 
 def check_selection(fx, R, S):
@@ -208,7 +211,19 @@ def check_routing(fx, R):
                         if a_ == b_ or sp.simplify(alg.interpret(a_ - b_)) == 0:
                             continue
                         conds = [(c[1], c[2]) for c in s_.cond if isinstance(c[1], sp.Basic)]
-                        r_ = alg.decide_zero_on_path(a_ - b_, conds, tries=60, domain=lambda y: (-700, 700))
+                        r_ = alg.decide_zero_on_path(a_ - b_, conds, tries=60, domain=lambda y: (0, 700) if re.match(r'^[A-Za-z]+\[(\d+),\1\]$', y.name) else (-700, 700))      # variances are not negative
+                        if r_[0] != 'nonzero':
+                            # corner witnesses: exact zeros (a perfectly known component, a robot at rest) are inside the quantifier (rank-deficient covariances) and are what threshold guards select
+                            fs_ = sorted(set((a_ - b_).free_symbols).union(*[c_.free_symbols for c_, _p in conds]), key=lambda y: y.name)
+                            for corner in [{y: sp.Integer(0) for y in fs_}] + [{y: (sp.Integer(1) if y is z else sp.Integer(0)) for y in fs_} for z in fs_[:8]]:
+                                try:
+                                    okc = all(bool(alg.interpret(c_).subs(corner)) == p_ for c_, p_ in conds)
+                                    dv = sp.N(alg.interpret(a_ - b_).subs(corner), 30)
+                                except Exception:
+                                    continue
+                                if okc and dv.is_number and abs(dv) > 0:
+                                    r_ = ('nonzero', corner, dv)
+                                    break
                         if r_[0] == 'nonzero':
                             verdict = ('violated', 'on the path [%s] the planar %s is %s, not the %s component %s of the 3D quantity: %s (the reduction keeps exactly the planar components)' % (
                                 desc, k_, str(a_)[:160], k_, b_, alg.witness_text(r_[1]) if len(r_) > 1 else ''))
@@ -464,7 +479,35 @@ def check_ellipse(fx, R):
                        'bound (standard deviations of millimetres give entries of 1e-6): a correlated covariance of small magnitude is treated as axis-aligned, orientation and radii then do not reproduce it' % (ctext, tol),
                        fx.rel(node['loc']), 'E-STATE')
         else:
-            R.undecided('K4', 'Ellipse(covariance):shortcut', 'a path leaves the constructor before the decomposition under `%s`' % ctext)
+            # an exact shortcut: the constructor is read on witness covariances (axis-aligned with either axis dominant, isotropic, rank deficient, correlated); on every path that ends with plain numbers
+            # the stored radii and orientation must reproduce the covariance
+            rdw = sym.Reader(fx, call_hook=mat.hook, member_hook=mat.member_hook)
+            sg = sp.Integer(2)
+            judged, badw = 0, None
+            for cw in ([[1, 0], [0, 4]], [[4, 0], [0, 1]], [[2, 0], [0, 2]], [[0, 0], [0, 3]], [[3, 0], [0, 0]], [[2, 1], [1, 2]], [[1, sp.Rational(1, 2)], [sp.Rational(1, 2), 3]]):
+                Cw = sp.ImmutableMatrix(cw)
+                try:
+                    stsw = rdw.run(f, args=[mat.fresh('c', 2, 1), Cw, sg])
+                except sym.Unsupported:
+                    continue
+                for sw in stsw:
+                    Mj, mn, th = (sw.fields.get(('this', n_)) for n_ in ('majorRadius_', 'minorRadius_', 'orientation_'))
+                    if not all(isinstance(v_, sp.Basic) and v_.is_number for v_ in (Mj, mn, th)):
+                        continue
+                    judged += 1
+                    Rw = sp.Matrix([[sp.cos(th), -sp.sin(th)], [sp.sin(th), sp.cos(th)]])
+                    back = sp.simplify(Rw * sp.diag(Mj ** 2, mn ** 2) * Rw.T / sg ** 2 - sp.Matrix(Cw))
+                    if back != sp.zeros(2, 2) or not (Mj >= mn >= 0):
+                        badw = badw or (cw, Mj, mn, th, (Rw * sp.diag(Mj ** 2, mn ** 2) * Rw.T / sg ** 2).tolist())
+            if badw:
+                R.violated('K4', 'Ellipse(covariance):shortcut:value', 'under `%s` the ellipse is built without the decomposition; for the covariance %s (sigma scale 2) that path stores major radius %s, minor radius %s, '
+                           'orientation %s, and R diag(major^2, minor^2) R^T / sigma^2 is %s - not the covariance: the major axis is reported along x although the larger variance is along y' % (
+                               ctext, badw[0], badw[1], badw[2], badw[3], badw[4]), fx.rel(node['loc']), 'E-STEP')
+            elif judged:
+                R.holds('K4', 'Ellipse(covariance):shortcut', 'under `%s` the stored radii and orientation reproduce the covariance on the %d witness covariances that take a path ending in plain numbers' % (ctext, judged),
+                        fx.rel(node['loc']), 'E-STEP')
+            else:
+                R.undecided('K4', 'Ellipse(covariance):shortcut', 'a path leaves the constructor before the decomposition under `%s`' % ctext)
     svd = [n for n, d in decls.items() if isinstance(d, tuple) and str(d[0]).startswith('new:Eigen::JacobiSVD') and len(d) > 1 and d[1] == 'covarianceMatrix']
     eig = [n for n, d in decls.items() if isinstance(d, tuple) and str(d[0]).startswith('new:Eigen::SelfAdjointEigenSolver') and len(d) > 1 and d[1] == 'covarianceMatrix']
     maj, mnr, ori = expand(assigns.get('this.majorRadius_')), expand(assigns.get('this.minorRadius_')), expand(assigns.get('this.orientation_'))
